@@ -1,3 +1,115 @@
 package main
 
-func rewriteStubCalls(dir string, replace map[string]string, ov map[string][]byte) error { return nil }
+// Native replays of model-FS harnesses: the repo's sources are compiled from copies in which every call of a
+// std function that the harness stubs (vxstub_*) is redirected to that stub, so that the native run meets the
+// same environment model as the symbolic run. Generated from the current tree on every replay.
+
+import (
+	"bytes"
+	"fmt"
+	"go/ast"
+	"go/format"
+	"go/types"
+	"os"
+	"path/filepath"
+	"strings"
+)
+
+func rewriteStubCalls(p *Program, dir string, replace map[string]string) error {
+	if p == nil || p.gopkg == nil {
+		return fmt.Errorf("rewrite: no loaded package")
+	}
+	info := p.gopkg.TypesInfo
+	for i, file := range p.gopkg.Syntax {
+		fname := p.gopkg.CompiledGoFiles[i]
+		base := filepath.Base(fname)
+		if strings.HasPrefix(base, "zz_verif_") || strings.HasSuffix(base, "_test.go") {
+			continue
+		}
+		var keep []string
+		changed := false
+		ast.Inspect(file, func(n ast.Node) bool {
+			call, ok := n.(*ast.CallExpr)
+			if !ok {
+				return true
+			}
+			sel, ok := call.Fun.(*ast.SelectorExpr)
+			if !ok {
+				return true
+			}
+			var fn *types.Func
+			isMethod := false
+			if s, ok := info.Selections[sel]; ok {
+				if s.Kind() != types.MethodVal {
+					return true
+				}
+				fn, _ = s.Obj().(*types.Func)
+				isMethod = true
+			} else if o, ok := info.Uses[sel.Sel].(*types.Func); ok {
+				fn = o
+			}
+			if fn == nil || fn.Pkg() == nil {
+				return true
+			}
+			stub, ok := p.stubFns[mangle(fn.FullName())]
+			if !ok {
+				return true
+			}
+			name := stub.Name()
+			if isMethod {
+				recv := fn.Type().(*types.Signature).Recv().Type()
+				if _, isIface := recv.Underlying().(*types.Interface); isIface {
+					return true
+				}
+				call.Args = append([]ast.Expr{sel.X}, call.Args...)
+				tn := recv
+				if pt, ok := recv.(*types.Pointer); ok {
+					tn = pt.Elem()
+				}
+				if named, ok := tn.(*types.Named); ok {
+					keep = append(keep, fmt.Sprintf("var _ *%s.%s", pkgIdent(file, named.Obj().Pkg().Path()), named.Obj().Name()))
+				}
+			} else {
+				if id, ok := sel.X.(*ast.Ident); ok {
+					keep = append(keep, fmt.Sprintf("var _ = %s.%s", id.Name, fn.Name()))
+				}
+			}
+			call.Fun = ast.NewIdent(name)
+			changed = true
+			return true
+		})
+		if !changed {
+			continue
+		}
+		var buf bytes.Buffer
+		if err := format.Node(&buf, p.fset, file); err != nil {
+			return err
+		}
+		seen := map[string]bool{}
+		for _, k := range keep {
+			if !seen[k] && !strings.Contains(k, "<nil>") {
+				seen[k] = true
+				buf.WriteString("\n" + k + "\n")
+			}
+		}
+		out := filepath.Join(dir, "rw_"+base)
+		if err := os.WriteFile(out, buf.Bytes(), 0o644); err != nil {
+			return err
+		}
+		replace[fname] = out
+	}
+	return nil
+}
+
+// pkgIdent: the local name under which file imports path.
+func pkgIdent(file *ast.File, path string) string {
+	for _, im := range file.Imports {
+		if strings.Trim(im.Path.Value, `"`) == path {
+			if im.Name != nil {
+				return im.Name.Name
+			}
+			return path[strings.LastIndex(path, "/")+1:]
+		}
+	}
+	return "<nil>"
+}
